@@ -26,11 +26,14 @@ def taskName (s : State) : TaskId → String
   | .a i =>
     match s.aws[i]? with
     | some a =>
-      let cls (k : AwKind) : Nat := match k with | .awaiter => 0 | .reader => 1 | .tick => 2 | .saw => 3
+      let cls (k : AwKind) : Nat :=
+        match k with | .awaiter => 0 | .awaiterR => 0 | .reader => 1 | .tick => 2 | .saw => 3 | .holder => 4
       let k := ((s.aws.take i).filter fun b => cls b.kind == cls a.kind).length
       match a.kind with
       | .reader => "r" ++ toString k
       | .awaiter => "a" ++ toString k
+      | .awaiterR => "a" ++ toString k
+      | .holder => "h" ++ toString k
       | .saw => "s" ++ toString k
       | .tick => "t" ++ toString (k + 1)
     | none => "?"
@@ -38,11 +41,14 @@ def taskName (s : State) : TaskId → String
 def obs (s : State) : String :=
   let rl := showList ((readyList s).map (taskName s)) ","
   let fin := showList (s.curInputs.map toString) "."
-  let aw := showList ((s.aws.filter fun a => a.kind == .awaiter || a.kind == .saw).map fun a =>
-    if a.done then (if a.aborted then "x" else showOpt a.result) else "-") ","
+  let aw := showList ((s.aws.filter fun a =>
+      a.kind == .awaiter || a.kind == .awaiterR || a.kind == .saw || a.kind == .holder).map fun a =>
+    if a.done || a.holding then (if a.aborted then "x" else showOpt a.result) else "-") ","
+  -- while a guard on the value is held the harness does not read it synchronously (that can block the thread)
+  let val := if s.guards = 0 && !s.lockReg then showOpt s.value else "~"
   let eff := showList (s.eLog.map fun (d, m) => s!"{showOpt d}:{showOpt m}") ";"
   let v := match oracle s with | none => "ok" | some c => s!"fail {c}"
-  s!"rl={rl} val={showOpt s.value} ld={showB s.loading} nf={s.nf} fin={fin} aw={aw} eff={eff} bp={s.pending} ## {v}"
+  s!"rl={rl} val={val} ld={showB s.loading} nf={s.nf} fin={fin} aw={aw} eff={eff} bp={s.pending} ## {v}"
 
 def kinds : List String := ["arc", "arena", "arc-unsync", "arena-unsync"]
 def resKinds : List String := ["res", "res-arc", "res-blocking"]
@@ -89,7 +95,24 @@ def parseFx (k : Nat) (s : String) : Option Fetcher :=
     | _, _, _ => none
   | _ => none
 
-def parseCfg (w : List String) : Option Cfg :=
+/-- `kind~chain`: the handle under test is obtained from the constructed one by the conversions in `chain`
+(`a` = into the `Arc…` type, `r` = into the arena type, `c` = clone): the same handle as far as the model goes -/
+def stripConv (kind : String) : Option String :=
+  match kind.splitOn "~" with
+  | [k] => some k
+  | [k, chain] =>
+    if chain.length > 0 && chain.length ≤ 4 && chain.toList.all (fun c => c == 'a' || c == 'r' || c == 'c')
+      && !(onceKinds.contains k) then some k else none
+  | _ => none
+
+def parseCfg (w0 : List String) : Option Cfg :=
+  match w0 with
+  | [] => none
+  | kind0 :: rest0 =>
+  match stripConv kind0 with
+  | none => none
+  | some kind1 =>
+  let w := kind1 :: rest0
   match w with
   | [kind, srcs, ini, eff] => parseCfg4 kind srcs ini eff false
   | [kind, srcs, ini, eff, via] =>
@@ -109,7 +132,20 @@ hooks/fix-c10-3.check.sh flips this to `true` in a scratch copy to check the pro
 hooks/fix-c10-3.patch against the model of the repaired code (`stepF true`). -/
 def repaired3 : Bool := false
 
+/-- guards on the value are driven on plain configurations only: no subscriber effect (its run reads the value
+synchronously: it would block the thread while the task waits for the lock), a fetcher that reads nothing after its
+await, no manual writes in the same case (`blocking_write`), not on once / local resources (no `by_ref()`) -/
+def guardsOk (s : State) : Bool :=
+  s.eff == .none && !s.once && !s.isLocal && s.fx.post.isEmpty && s.lastManual.isNone
+
+def usedGuards (s : State) : Bool := s.guards != 0 || s.aws.any fun a => a.kind == .holder
+
 def stepOp (s : State) (w : List String) : Option State :=
+  if (w == ["attach", "h"] || w == ["hold"]) && !guardsOk s then none else
+  if w.head? == some "mset" && usedGuards s then none else
+  -- synchronous accesses while a guard is held (or the task waits for the lock) are not made: they can block the
+  -- thread for good; the op is skipped
+  if (s.guards != 0 || s.lockReg) && (w == ["bread"] || w == ["get"] || w == ["hold"]) then some s else
   -- a `OnceResource` has no sources to write, no `refetch`, no `Write` impl and no `by_ref`
   if s.once && (w.head? == some "set" || w.head? == some "refetch" || w.head? == some "mset" ||
       w == ["attach", "b"] || w == ["attach", "s"]) then none else
@@ -127,7 +163,9 @@ def stepOp (s : State) (w : List String) : Option State :=
     else f.toNat?.map fun f => step s (.complete f)
   | ["attach"] => some (step s .attach)
   | ["attach", k] =>
-    if k == "v" || k == "r" || k == "b" then some (step s .attach)
+    if k == "v" || k == "b" then some (step s .attach)
+    else if k == "r" then some (step s .attachR)
+    else if k == "h" then some (step s .attachH)
     else if k == "s" then some (step s .attachS)
     else none
   | ["bdrop"] => some (stepF repaired3 s .bdrop)
@@ -135,6 +173,8 @@ def stepOp (s : State) (w : List String) : Option State :=
   | ["idle"] => some (runIdle (4 * s.aws.length + 16) s)
   | ["get"] => some (step s .get)
   | ["bread"] => some (step s .bread)
+  | ["hold"] => some (step s .hold)
+  | ["release"] => some (step s .release)
   | _ => none
 
 def stepLine (d : Option State) (line : String) : Option State × String :=
